@@ -13,7 +13,11 @@ theorem anchorIn_of_prune {al : AList} {g : String} {a : NA} (h : AnchorIn (prun
 
 /-- the base-side anchor `b` belongs to glyph `g`, refers to class `b.cls`, and has ligature number `num` -/
 def BOK (al : AList) (km : List (String × String)) (g : String) (b : BAnchor) (num : Option Nat) : Prop :=
-  AnchorIn al g b.a ∧ classOf km b.a = some b.cls ∧ b.a.number = num
+  AnchorIn al g b.a ∧ classOf km b.a = some b.cls ∧ b.a.number = num ∧ b.a.ctx = none
+
+theorem mem_plainOf {as : List NA} {a : NA} (h : a ∈ plainOf as) : a ∈ as ∧ a.ctx = none := by
+  obtain ⟨h1, h2⟩ := mem_filter.mp h
+  exact ⟨h1, by simpa using h2⟩
 
 def EntryOK (al : AList) (km : List (String × String)) (kind : Kind) (e : Entry) : Prop :=
   ∀ j comp, e.comps[j]? = some comp → ∀ t ∈ comp, ∃ b : BAnchor,
@@ -52,7 +56,7 @@ theorem baseAtts_ok {i : Input} {al : AList} {mg : List String} {km : List (Stri
         | none => rw [hcl] at hab; simp at hab
         | some c =>
           rw [hcl] at hab; simp only [Option.map_some, Option.some.injEq] at hab; subst hab
-          exact ⟨⟨e.2, he, ha⟩, hcl, by simpa using hnum⟩
+          exact ⟨⟨e.2, he, (mem_plainOf ha).1⟩, hcl, by simpa using hnum, (mem_plainOf ha).2⟩
 
 theorem mem_compOf {km : List (String × String)} {evs : List NA} {n : Nat} {b : BAnchor} (h : b ∈ compOf km evs n) :
     b.a ∈ evs ∧ b.a.number = some n ∧ classOf km b.a = some b.cls := by
@@ -81,7 +85,7 @@ theorem ligAtts_ok {i : Input} {al : AList} {mg : List String} {km : List (Strin
       refine ⟨by simpa using hc.1, by simpa using hc.2, ?_⟩
       intro j comp hj b hb
       simp only [getElem?_map] at hj
-      cases hr : (range (maxNat (filterMap (fun x => x.number) (ligEvents km e.2))))[j]? with
+      cases hr : (range (maxNat (filterMap (fun x => x.number) (ligEvents km (plainOf e.2)))))[j]? with
       | none => rw [hr] at hj; simp at hj
       | some j' =>
         rw [hr] at hj
@@ -92,7 +96,7 @@ theorem ligAtts_ok {i : Input} {al : AList} {mg : List String} {km : List (Strin
           simpa using h2.symm
         subst hj'; subst hj
         obtain ⟨h1, h2, h3⟩ := mem_compOf hb
-        exact ⟨⟨e.2, he, (mem_filter.mp h1).1⟩, h3, h2⟩
+        exact ⟨⟨e.2, he, (mem_plainOf (mem_filter.mp h1).1).1⟩, h3, h2, (mem_plainOf (mem_filter.mp h1).1).2⟩
 
 theorem mkmkAtts_ok {al : AList} {mg : List String} {km : List (String × String)}
     {t : String × String × BAnchor} (h : t ∈ mkmkAtts al mg km) :
@@ -110,7 +114,7 @@ theorem mkmkAtts_ok {al : AList} {mg : List String} {km : List (String × String
       | none => rw [hcl] at hab; simp at hab
       | some c =>
         rw [hcl] at hab; simp only [Option.map_some, Option.some.injEq] at hab; subst hab
-        exact ⟨by simpa using hmg, rfl, ⟨e.2, he, ha⟩, hcl, by simpa using hnum⟩
+        exact ⟨by simpa using hmg, rfl, ⟨e.2, he, (mem_plainOf ha).1⟩, hcl, by simpa using hnum, (mem_plainOf ha).2⟩
 
 /-! ### grouping keeps sub-lists -/
 theorem filterBase_some {grp : List String} {att att' : String × List BAnchor} (h : filterBase grp att = some att') :
